@@ -25,6 +25,8 @@ func main() {
 		for id := range seq.Registry {
 			fmt.Println(id)
 		}
+	case "c08digest":
+		fmt.Println(seq.C08Digest(os.Args[2]))
 	case "run":
 		id, tier, out := os.Args[2], os.Args[3], os.Args[4]
 		c := seq.Registry[id]
